@@ -12,7 +12,7 @@ spike-cluster step -/
 def wmOf (d1 : Dir) : Option Arr := (readFile d1 ["whitening_mat.npy"]).map fun a => atleast 2 (squeeze (scrub a))
 def wmiOf (d1 : Dir) : Option Arr := (readFile d1 ["whitening_mat_inv.npy"]).map fun a => atleast 2 (squeeze (scrub a))
 
-theorem load_wm_wmi (inv : Arr → Arr) (d : Dir) (v : View) (d' : Dir) (h : load inv d = .ok (v, d')) :
+theorem load_wm_wmi (inv : Arr → Arr) {one : Cell} (d : Dir) (v : View) (d' : Dir) (h : load inv d one = .ok (v, d')) :
     v.wm = wmOf (d1Of d) ∧ v.wmi = wmiOf (d1Of d) := by
   simp only [load, bind, Except.bind, pure, Except.pure, throw, throwThe, MonadExceptOf.throw] at h
   repeat' first
@@ -36,11 +36,11 @@ theorem d1Of_lookup_wmi (d : Dir) : (d1Of d).lookup "whitening_mat_inv.npy" = d.
     · rfl
 
 /-- no stored inverse: the view holds none (the inverse is computed), and the file that is written holds exactly what
-`inv` returned on the whitening matrix the view shows -/
-theorem wmi_default (inv : Arr → Arr) (d : Dir) (v : View) (d' : Dir) (h : load inv d = .ok (v, d'))
+`inv` returned on the whitening matrix WITH ITS DEFAULT (`np.eye(nc)`, model.py:442, `nc = channel_map.shape[0]`) -/
+theorem wmi_default (inv : Arr → Arr) {one : Cell} (d : Dir) (v : View) (d' : Dir) (h : load inv d one = .ok (v, d'))
     (hn : d.lookup "whitening_mat_inv.npy" = none) :
     v.wmi = none ∧
-    d'.lookup "whitening_mat_inv.npy" = some (match v.wm with | some w => inv w | none => ⟨[], []⟩) := by
+    d'.lookup "whitening_mat_inv.npy" = some (inv (v.wm.getD (eye one (v.channelMap.shape.headD 0)))) := by
   obtain ⟨hwm, hwmi⟩ := load_wm_wmi inv d v d' h
   obtain ⟨hd, -⟩ := load_core inv d v d' h
   have h1 : readFile (d1Of d) ["whitening_mat_inv.npy"] = none := by
@@ -54,7 +54,7 @@ theorem wmi_default (inv : Arr → Arr) (d : Dir) (v : View) (d' : Dir) (h : loa
   split <;> simp [List.lookup_append, List.lookup, *]
 
 /-- a stored inverse is shown as it is (at least 2-D, squeezed, scrubbed) and nothing is written for it -/
-theorem wmi_stored (inv : Arr → Arr) (d : Dir) (v : View) (d' : Dir) (h : load inv d = .ok (v, d'))
+theorem wmi_stored (inv : Arr → Arr) {one : Cell} (d : Dir) (v : View) (d' : Dir) (h : load inv d one = .ok (v, d'))
     (a : Arr) (ha : d.lookup "whitening_mat_inv.npy" = some a) :
     v.wmi = some (atleast 2 (squeeze (scrub a))) := by
   obtain ⟨-, hwmi⟩ := load_wm_wmi inv d v d' h
